@@ -186,7 +186,9 @@ def _canon(k):
     g = 9.81
     if k < 8:
         hr = np.radians(45.0 * k)
-        return [0, 0, g], [20 * np.cos(hr), -20 * np.sin(hr), 40]
+        # exact cardinal headings: sin(pi) in floats is 1.2e-16, which would put "exactly south" on one side of a sign test
+        ch, sh = {0: (1.0, 0.0), 2: (0.0, 1.0), 4: (-1.0, 0.0), 6: (0.0, -1.0)}.get(k, (np.cos(hr), np.sin(hr)))
+        return [0, 0, g], [20 * ch, -20 * sh + 0.0, 40]
     if k == 8:
         return [0, 0, -g], [20, 3, -40]
     a = {9: [g, 0, 0], 10: [-g, 0, 0], 11: [0, g, 0], 12: [0, -g, 0]}[k]
